@@ -92,8 +92,8 @@ def getter_index(ctx) -> None:
         ok = core.src(lam.body) == f'self._index.set(system.Getter({p}))'
     ctx.check(ok, 'C01.getter', add, 'the getter factory builds Getter(index) with the index it is asked for', upd[0] if upd else add.node, key='factory')
     if upd:
-        gs = [(core.src(t), pol) for t, pol in cfg.guards(upd[0], add.node, siblings=False)]
-        ctx.check(gs == [('not node.trained', True)], 'C01.getter', add, 'only applied (not trained) nodes are linked to consumers: trained nodes publish nothing', upd[0], key='update:guard')
+        gs = cfg.cguards(upd[0], add.node)
+        ctx.check(gs == [('node.trained', False)], 'C01.getter', add, 'only applied (not trained) nodes are linked to consumers: trained nodes publish nothing', upd[0], key='update:guard')
         ctx.check(core.src(upd[0].args[0]) == 'node', 'C01.getter', add, 'the node being added is the one linked', upd[0], key='update:node')
     ge = prog.func(f'{SYSTEM}:Getter.execute')
     param = [p for p in ge.param_names if p != 'self'][0]
